@@ -12,7 +12,11 @@ Adv == l' = l + 1
 \* the blackboxes of a diagram: its own, and (a diagram of a project application) those of the project
 Cut(ev) == {<<ev.cut[i][1], ev.cut[i][2]>> : i \in DOMAIN ev.cut}
            \cup (IF "pcut" \in DOMAIN ev THEN {<<ev.pcut[i][1], ev.pcut[i][2]>> : i \in DOMAIN ev.pcut} ELSE {})
-Begin == Is("begin") /\ m' = M0G(Want(Ev.eps, Ev.sapp, Ev.sep, Cut(Ev)), Ev.groups) /\ Adv
+Starts(ev) == [i \in DOMAIN ev.starts |-> <<ev.starts[i][1], ev.starts[i][2]>>]
+Begin == /\ Is("begin")
+         /\ m' = M0G(IF "starts" \in DOMAIN Ev /\ Len(Ev.starts) > 1 THEN WantMany(Ev.eps, Starts(Ev), Cut(Ev))
+                     ELSE Want(Ev.eps, Ev.sapp, Ev.sep, Cut(Ev)), Ev.groups)
+         /\ Adv
 \* an action drawn on its own lifeline ("spaced" arrow) is not a call
 Step == /\ l <= Len(Trace)
         /\ Ev.e \in {"declare", "call", "return", "activate", "deactivate", "open", "else", "close", "sep", "note", "boxmember"}
